@@ -3,7 +3,7 @@ SPEC = {
     'harness': 'hC17',
     'coq_dir': 'C17',
     'claimed': True,
-    'theorems': ['C17_created_group_chained', 'C17_created_group_checks_partial', 'C17_created_fee_sufficient', 'C17_created_group_passes_partial', 'C17_created_group_checks_refuted',
+    'theorems': ['C17_created_group_chained', 'C17_created_group_checks', 'C17_created_fee_sufficient', 'C17_created_group_passes',
                  'C17_same_header_same_content', 'C17_member_first_detected', 'C17_tamper_detected_partial', 'C17_tamper_detected_refuted',
                  'C17_fee_rules', 'C17_fee_sum_exact', 'C17_decode_txs_encode', 'C17_tx_path_equiv',
                  'C17_rebuilt_group_chained'],
@@ -24,7 +24,9 @@ SPEC = {
             'fee +-1 on other members; chain id under the strict fork) plus a sampled part (quick: 40-120 of the per-member field, signature and '
             'structural alterations; sizes 2 and 3 and the thorough tier: all of them); parachain mixes (main only, one para, para+main, two paras, '
             'odd titles), rates 0/1/1e5/2.5e5/2^40, payload sizes around the 1000-byte fee step, sizes 0, 1, 21, 22, oversize members; '
-            'unrestricted stream: stale Next on the last input, high-S / trailing-byte signatures, ty bits outside the crypto-id mask. '
+            'regression stream (former finding F1, fixed in chain33 db466e1): inputs taken from an earlier group, the last one with a stale Next - '
+            'the created group must pass under two environments, a Next put on the last member is rejected and RebuiltGroup drops it again; '
+            'unrestricted stream: high-S / trailing-byte signatures, ty bits outside the crypto-id mask. '
             'entries are independent; a case reports its first spec violation outside the findings, else the first finding, else the first disagreement. '
             'non-trivial = case with at least one altered entry or a creation error; distinct = distinct case terms',
     'trusted_base': [
@@ -38,7 +40,8 @@ SPEC = {
         'golang/protobuf Marshal/Size as encoding oracle on the implementation side',
     ],
     'assumptions': [
-        'Go nil and empty byte slices are identified (as on the wire): in-memory groups whose last member has a non-nil empty Next are outside the model',
+        'Go nil and empty byte slices are identified (as on the wire): an in-memory group whose last member has a non-nil empty Next '
+        '(rejected by Check, which tests Next != nil) is outside the model; CreateTxGroup and RebuiltGroup cannot produce one (they assign nil)',
         'nil members of an in-memory Transactions (ErrTxGroupEmpty) are not modelled (cannot arise from decoding)',
         'the members of one CreateTxGroup call are distinct objects (no pointer aliasing)',
         'headers handed to GetTxGroup are canonical encodings (produced by Transactions.Tx()); decoding of non-canonical or unknown-field '
@@ -46,15 +49,15 @@ SPEC = {
         'a member signed again by Transaction.Sign with another key is an issued signature (the ideal functionality lets anyone sign); '
         'the spec oracle counts it as authentic',
         'fee rates below 2^50 in the spec oracle (no int64 wrap-around; the model itself wraps like Go)',
-        'C17_created_group_checks_partial takes the fee sufficiency of the signed group as a hypothesis (decision rule); '
-        'C17_created_fee_sufficient / C17_created_group_passes_partial derive it for unsigned inputs, Check called with the creation rate, '
+        'C17_created_group_checks takes the fee sufficiency of the signed group as a hypothesis (decision rule); '
+        'C17_created_fee_sufficient / C17_created_group_passes derive it for unsigned inputs, Check called with the creation rate, '
         'signature fields of at most 300 encoded bytes (the budget CreateTxGroup uses), a constant digest length and 101*rate*n < 2^63',
     ],
     'manifest': {
         'level_text': 'partial: structure clauses (reorder/drop/add/substitute/any hashed field) proved unbounded for the model under SHA-256 '
                       'injectivity; signature clause under the ideal signature functionality and only up to signature malleability and the '
-                      'non-driver bits of Signature.ty (full statement refuted, findings F2/F3); created-group clause under the guard that the '
-                      'last input carries no Next (unguarded statement refuted, finding F1); fee clauses as decision rules',
+                      'non-driver bits of Signature.ty (full statement refuted, findings F2/F3, open); created-group clause proved for every input '
+                      'list (finding F1 fixed in chain33 db466e1: CreateTxGroup / RebuiltGroup clear the Next of the last member); fee clauses as decision rules',
         'level_note': 'trusted: SHA-256 injectivity (digest table from crypto/sha256 in the check), ideal signature functionality in place of '
                       'the drivers (their verdict is an oracle in the check), C16 model of the transaction encoding, golang/protobuf as encoding oracle',
         'technique': 'Coq proof (hash-chain induction over the member list, encoder injectivity from C16, ideal-functionality argument) + '
@@ -87,10 +90,15 @@ def extra(ctx):
             'fee/head', 'fee/other', 'chain/member', 'count/all', 'field/Execer', 'field/Payload', 'field/Fee', 'field/Expire',
             'field/Nonce', 'field/To', 'field/GroupCount', 'field/Header', 'field/Next', 'field/ChainID']
     missing = [k for k in need if kinds.get(k, 0) == 0]
+    # regression stream of the fixed finding F1: created from inputs with a stale Next on the last one
+    stale = [c for c in ctx.cases if c.get('kind', '') == 'regress/stale-next']
+    if not stale:
+        missing.append('regress/stale-next')
     if missing or not set(range(2, 21)) <= sizes:
         violations.append({'kind': 'no-failing-input-found', 'theorem_or_correspondence': 'coverage floor',
                            'what': 'harness run lacks alteration kinds %s or group sizes %s' % (missing, sorted(set(range(2, 21)) - sizes)),
                            'case': None})
     return {'violations': violations,
             'coverage': {'entries': entries, 'entries_accepted': accepted, 'entries_rejected': entries - accepted,
-                         'entry_kinds': dict(sorted(kinds.items())), 'group_sizes': sorted(sizes)}}
+                         'entry_kinds': dict(sorted(kinds.items())), 'group_sizes': sorted(sizes),
+                         'stale_next_groups': len(stale)}}
